@@ -271,6 +271,19 @@ func c01Entry(c *Ctx, pkg string) {
 					w.env.bind(f.Params[3], tl)
 					w.env.bind(f.Params[4], 7)
 					reached := false
+					via := map[ssa.Value]ssa.Value{}
+					w.onPhi = func(w *pathWalker, ph *ssa.Phi, in ssa.Value) { via[ph] = in }
+					w.onReturn = func(parent, child *pathWalker, call *ssa.Call, results []ssa.Value) {
+						if len(results) == 1 {
+							via[call] = results[0]
+							return
+						}
+						c01Extracts(call, func(ex *ssa.Extract) {
+							if ex.Index < len(results) {
+								via[ex] = results[ex.Index]
+							}
+						})
+					}
 					w.inline = c01SamePkgInline(pkg, func(cal *ssa.Function) bool { return cal != f && c01Inner(cal, inner) })
 					w.onCall = func(w *pathWalker, ci ssa.CallInstruction) string {
 						if cal := ci.Common().StaticCallee(); cal != f && c01Inner(cal, inner) {
@@ -295,7 +308,7 @@ func c01Entry(c *Ctx, pkg string) {
 						bad = id + ": no panic"
 					case wantShort:
 						ret, _ := w.last.(*ssa.Return)
-						if reached || end != "return" || ret == nil || len(ret.Results) != 2 || !isNilConst(retVal(ret, 0)) || !isGlobalLoad(retVal(ret, 1), "errOpen") {
+						if reached || end != "return" || ret == nil || len(ret.Results) != 2 || !isNilConst(c01Through(via, retVal(ret, 0))) || !isGlobalLoad(c01Through(via, retVal(ret, 1)), "errOpen") {
 							bad = fmt.Sprintf("input length %d shorter than the tag is not rejected with (nil, errOpen)", tl)
 						}
 					case !wantPanic && (!reached || end == "panic"):
@@ -521,11 +534,11 @@ func c01AsmState(c *Ctx, pkg string, asmBuild bool) {
 						if verdict == 1 {
 							l, ok := mem.resolve(w, ret.Results[0])
 							k, _ := w.env.eval(ret.Results[0])
-							if !ok || l != (c01Loc{outLoc.reg, 0}) || k != lens[1]+outLen || (dir == "open" && !isNilConst(retVal(ret, 1))) {
+							if !ok || l != (c01Loc{outLoc.reg, 0}) || k != lens[1]+outLen || (dir == "open" && !isNilConst(mem.through(retVal(ret, 1)))) {
 								badRet = id + "the method does not return dst followed by the region the assembly wrote (with a nil error)"
 							}
 						} else {
-							if !isNilConst(retVal(ret, 0)) || !isGlobalLoad(retVal(ret, 1), "errOpen") {
+							if !isNilConst(mem.through(retVal(ret, 0))) || !isGlobalLoad(mem.through(retVal(ret, 1)), "errOpen") {
 								badRet = id + "a failed Open does not return (nil, errOpen)"
 							}
 							for i, v := range mem.readN(outLoc, outLen) {
